@@ -18,6 +18,7 @@ CHECKS = {
             dict(test="TestC03Enum", unit="enum", kind="enum", shards=(8, 16)),
             dict(test="TestC03Trunc", unit="trunc", kind="enum", shards=(4, 4)),
             dict(test="TestC03Random", unit="random", kind="rapid", checks=(2400, 48000), shards=(8, 16)),
+            dict(test="TestC03PipeClose", unit="pipeclose", kind="rapid", checks=(160, 3000), shards=(4, 8)),
         ],
     ),
     "C14": dict(
